@@ -501,6 +501,9 @@ class CreditLedger(Monitor):
 # ------------------------------------------------------------------ C12
 
 
+_OPENED = []  # (CryptoPair object, packet number) appended by the decrypt_packet watch, cleared around every delivery
+
+
 class AckMonitor(Monitor):
     """ACK soundness (every acknowledged number was delivered authentic in that space) and timeliness."""
 
@@ -521,8 +524,89 @@ class AckMonitor(Monitor):
         self.slack = slack
         self.pending_next = {}  # (ep, space) -> set(pn) to be covered by next packet in that space
         self.maybe_accepted = set()  # (ep, space, pn) possibly accepted earlier from a corrupted copy
+        self.valid_addrs = {}  # endpoint -> addresses validated according to the monitor's own path model
+        self.active_addr = {}  # endpoint -> address the endpoint has to use according to that model
+        self.largest_opened = {}  # (endpoint, space) -> highest packet number opened
+        self.challenges = {}  # endpoint -> {PATH_CHALLENGE data: address it was sent to}
+        self.path_changes = 0
+        self.exempt_path_switched = 0
+        self.judged_next = set()  # (ep, space, pn) of Initial/Handshake obligations already compared with what was opened
+        self.exempt_not_opened = 0
+        self.opened_and_owed = 0
+
+    PROBING = ("PATH_CHALLENGE", "PATH_RESPONSE", "NEW_CONNECTION_ID", "PADDING")
+
+    def _track_paths(self, ep, rec, from_addr, t, altered, opened):
+        """The monitor's own model of the server's paths (RFC 9000 section 9), fed only by what was delivered and opened:
+        an address is validated once an authentic Handshake packet from it was opened, or a PATH_RESPONSE echoing a
+        PATH_CHALLENGE the server sent to it; the address in use is the source of the highest-numbered non-probing
+        packet opened so far.  When the address in use becomes one that is not validated, what the server may send is
+        bounded by the anti-amplification limit, which can be smaller than one ACK-bearing packet: obligations still
+        open at that moment are waived (and new ones are not created until the address is validated)."""
+        if ep.name != "server":
+            return
+        views = self.sim.views_possibly_intact(rec, altered) if altered else (rec.views or [])
+        valid = self.valid_addrs.setdefault(ep.name, set())
+        before = self.active_addr.get(ep.name)
+        for v in views:
+            if v.error or v.pn is None or (v.space, v.pn) not in opened:
+                continue
+            if v.ptype == "handshake":
+                valid.add(from_addr)
+            for f in v.frames:
+                if f["name"] == "PATH_RESPONSE":
+                    a = self.challenges.get(ep.name, {}).get(bytes(f["data"]))
+                    if a is not None:
+                        valid.add(a)
+            k = (ep.name, v.space)
+            if v.pn > self.largest_opened.get(k, -1):
+                self.largest_opened[k] = v.pn
+                if not all(f["name"] in self.PROBING for f in v.frames) or before is None:
+                    self.active_addr[ep.name] = from_addr
+        now_active = self.active_addr.get(ep.name)
+        if now_active != before:
+            self.path_changes += 1
+        if now_active is not None and now_active not in valid:
+            for ob in self.obligations:
+                if not ob["met"] and ob["ep"] == ep.name and t <= ob["deadline"]:
+                    ob["met"] = True
+                    self.exempt += 1
+                    self.exempt_path_switched += 1
+
+    @staticmethod
+    def _install_open_watch():
+        """Observe, one layer below the connection, which packets an endpoint's packet protection opened: wrap
+        CryptoPair.decrypt_packet (class level, once per process) to append (pair object, packet number) on success."""
+        from aioquic.quic import crypto
+
+        if getattr(crypto.CryptoPair.decrypt_packet, "_verif_watch", False):
+            return
+        orig = crypto.CryptoPair.decrypt_packet
+
+        def decrypt_packet(self, packet, encrypted_offset, expected_packet_number):
+            out = orig(self, packet, encrypted_offset, expected_packet_number)
+            _OPENED.append((self, out[2]))
+            return out
+
+        decrypt_packet._verif_watch = True
+        crypto.CryptoPair.decrypt_packet = decrypt_packet
+
+    @staticmethod
+    def _opened_by(ep):
+        """{(space, pn)} opened by this endpoint since the last on_deliver."""
+        from aioquic import tls
+
+        conn = ep.conn
+        pairs = {}
+        for pair in getattr(conn, "_cryptos_initial", {}).values():
+            pairs[id(pair)] = "I"
+        for epoch, pair in getattr(conn, "_cryptos", {}).items():
+            pairs.setdefault(id(pair), {tls.Epoch.INITIAL: "I", tls.Epoch.HANDSHAKE: "H"}.get(epoch, "A"))
+        return {(pairs[id(pair)], pn) for pair, pn in _OPENED if id(pair) in pairs}
 
     def on_deliver(self, ep, rec, from_addr, t, altered=False):
+        self._install_open_watch()
+        del _OPENED[:]
         if altered:
             # packets of a corrupted copy that do not contain the flipped byte are still authentic
             for v in self.sim.views_possibly_intact(rec, altered):
@@ -550,14 +634,15 @@ class AckMonitor(Monitor):
                 continue
             if sp == "A":
                 closing = ep.conn._state.name in ("CLOSING", "DRAINING", "TERMINATED") or ep.conn._close_pending
-                path_ok = True
-                try:
-                    path_ok = ep.conn._network_paths[0].is_validated
-                except Exception:
-                    pass
+                # the monitor's own path model (see _track_paths), not the connection's: the server's acknowledgements are
+                # only owed in time while the address it has to use is one that was validated
+                path_ok = ep.name != "server" or self.active_addr.get(ep.name) is None or self.active_addr[ep.name] in self.valid_addrs.get(ep.name, ())
                 # (a 0-RTT packet that arrives *after* the handshake completed is an application-space packet like any
                 # other: if it carries the highest number so far it is owed a timely acknowledgement)
-                if v.ptype not in ("1rtt", "0rtt") or not ep.handshake_complete or closing or not path_ok or from_addr not in (ep.conn._network_paths[0].addr,):
+                # (a packet from another address than the active path's: if it makes the endpoint move to that (unvalidated)
+                # path the exemption in on_step applies; if it does not — a probing-only packet — the acknowledgement
+                # travels on the validated active path and is owed in time)
+                if v.ptype not in ("1rtt", "0rtt") or not ep.handshake_complete or closing or not path_ok:
                     self.exempt += 1
                     continue
                 self.obligations.append({"ep": ep.name, "space": sp, "pn": v.pn, "t": t, "deadline": t + 0.025 + self.slack, "met": False})
@@ -571,31 +656,50 @@ class AckMonitor(Monitor):
         from aioquic import tls
 
         emap = {"I": tls.Epoch.INITIAL, "H": tls.Epoch.HANDSHAKE, "A": tls.Epoch.ONE_RTT}
+        # Whether the endpoint could open a packet is observed one layer below the code under judgement: at the
+        # packet-protection object (CryptoPair.decrypt_packet returned the packet number).  A packet that was not
+        # opened (unknown connection ID, keys discarded or not yet installed, key-phase desync) owes nothing; one that
+        # was opened and did not end the connection is owed its acknowledgement, whatever the connection's own
+        # bookkeeping (ack_queue) says.
+        opened = self._opened_by(ep)
+        del _OPENED[:]
+        self._track_paths(ep, rec, from_addr, t, altered, opened)
+        closing = ep.terminated or ep.conn._state.name in ("CLOSING", "DRAINING", "TERMINATED") or ep.conn._close_pending
         for key in list(self.pending_next):
             if key[0] != ep.name:
                 continue
             sp = ep.conn._spaces.get(emap[key[1]]) if hasattr(ep.conn, "_spaces") else None
-            if sp is None or sp.discarded:
+            if sp is None or sp.discarded or closing:
                 self.exempt += len(self.pending_next.pop(key))
                 continue
-            # not accepted because the receive keys are not installed yet -> exempt
             for pn in list(self.pending_next[key]):
-                if pn not in sp.ack_queue:
+                if (key[0], key[1], pn) in self.judged_next:
+                    continue
+                self.judged_next.add((key[0], key[1], pn))
+                if (key[1], pn) not in opened:
                     self.pending_next[key].discard(pn)
                     self.exempt += 1
+                    self.exempt_not_opened += 1
+                else:
+                    self.opened_and_owed += 1
         for ob in self.obligations:
-            if ob["ep"] == ep.name and not ob["met"] and ob["t"] == t:
-                sp = ep.conn._spaces.get(emap["A"])
-                if sp is None or sp.discarded or ob["pn"] not in sp.ack_queue:
-                    # e.g. the packet could not be opened because of a key-phase desync (C01 finding)
+            if ob["ep"] == ep.name and not ob["met"] and ob["t"] == t and not ob.get("judged"):
+                ob["judged"] = True
+                if ("A", ob["pn"]) not in opened:
                     ob["met"] = True
                     self.exempt += 1
+                    self.exempt_not_opened += 1
                     self.timeliness_obligations -= 1
+                else:
+                    self.opened_and_owed += 1
 
     def on_datagram_out(self, ep, rec, t):
         for v in rec.views or []:
             if v.error or v.pn is None:
                 continue
+            for f in v.frames:
+                if f["name"] == "PATH_CHALLENGE":
+                    self.challenges.setdefault(ep.name, {})[bytes(f["data"])] = rec.addr
             sp = v.space
             key = (ep.name, sp)
             acks = [f for f in v.frames if f["name"] in ("ACK", "ACK_ECN")]
@@ -628,20 +732,7 @@ class AckMonitor(Monitor):
     def on_step(self, ep, t, cause):
         if not self.check_timeliness:
             return
-        path_ok = True
-        try:
-            path_ok = ep.conn._network_paths[0].is_validated
-        except Exception:
-            pass
         for ob in self.obligations:
-            if not ob["met"] and ob["ep"] == ep.name and not path_ok and t <= ob["deadline"]:
-                # the endpoint moved to a new, not yet validated path before the acknowledgement was due (the peer was
-                # rebound): what it may send there is bounded by the anti-amplification limit, which can be smaller than
-                # one ACK-bearing packet — the same exemption as for packets received on an unvalidated path
-                ob["met"] = True
-                self.exempt += 1
-                self.exempt_path_switched = getattr(self, "exempt_path_switched", 0) + 1
-                continue
             if not ob["met"] and ob["ep"] == ep.name and t > ob["deadline"] + 0.05:
                 if ep.terminated or ep.conn._state.name != "CONNECTED" or ep.conn._close_pending:
                     ob["met"] = True
